@@ -137,6 +137,7 @@ func gen(tier string, out *vlib.Out) {
 			out.Line("%s", l)
 		}
 	}
+	growthSweep(out)
 	val := 0
 	fresh := func() int { val++; return val }
 	// mostly fresh positive values (every position identifiable); sometimes the zero value, a negative,
@@ -175,6 +176,112 @@ func gen(tier string, out *vlib.Out) {
 			n = k
 		default:
 			out.Line("new %s", kind)
+		}
+		// A plain copy-on-write list may be called from inside its own Range callback (Range holds no lock).
+		// Such re-entrant calls are made in EVERY phase, so that the walk in progress meets every kind of
+		// state the list gets into (just grown - whatever spare capacity the runtime left -, just shrunk,
+		// drained, refilled) and every writer, alone or several in a row.
+		cowRe := (base == "cow" || base == "cowof") && !strings.Contains(kind, "conc-")
+		nestedOp := func(m int) (string, int) { // one ordinary call on a list of length m, and the change of length
+			idx := func(hi int) int {
+				switch r.Intn(5) {
+				case 0:
+					return 0
+				case 1:
+					return hi
+				}
+				return r.Range(-1, hi+1)
+			}
+			switch p := r.Intn(100); {
+			case p < 30:
+				i := idx(m)
+				if i >= 0 && i <= m {
+					return fmt.Sprintf("add %d %d", i, next()), 1
+				}
+				return fmt.Sprintf("add %d %d", i, next()), 0
+			case p < 45:
+				return fmt.Sprintf("set %d %d", idx(m-1), next()), 0
+			case p < 65:
+				i := idx(m - 1)
+				if i >= 0 && i < m {
+					return fmt.Sprintf("delete %d", i), -1
+				}
+				return fmt.Sprintf("delete %d", i), 0
+			case p < 85:
+				k := r.Range(0, 3)
+				xs := make([]int, k)
+				for i := range xs {
+					xs[i] = next()
+				}
+				return "append " + vlib.Ints(xs), k
+			case p < 90:
+				return fmt.Sprintf("get %d", idx(m-1)), 0
+			case p < 94:
+				return "len", 0
+			case p < 97:
+				return "asslice", 0
+			}
+			return "range", 0
+		}
+		// effect: the change of length an ordinary call makes on a list of length m
+		effect := func(line string, m int) int {
+			w := strings.Fields(line)
+			switch w[0] {
+			case "add":
+				if i, _ := strconv.Atoi(w[1]); i >= 0 && i <= m {
+					return 1
+				}
+			case "delete":
+				if i, _ := strconv.Atoi(w[1]); i >= 0 && i < m {
+					return -1
+				}
+			case "append":
+				return len(vlib.ParseInts(w[1]))
+			}
+			return 0
+		}
+		// reentrant: `rangedo k call ; call…` - the callback makes the calls when it is shown index k.
+		// first (if given) is the first of them; keeps n up to date.
+		reentrant := func(first string) {
+			k := 0 // mostly early in the walk: most of the sequence is still to be shown
+			switch r.Intn(4) {
+			case 0:
+				k = r.Range(0, n) // k == n: the callback never makes the calls
+			case 1:
+				if n > 0 {
+					k = n - 1
+				}
+			}
+			m := n
+			calls := []string{}
+			more := r.Range(1, 3)
+			if first != "" {
+				calls = append(calls, first)
+				m += effect(first, m)
+				if !r.Chance(35) {
+					more = 0
+				}
+			}
+			for j := 0; j < more; j++ {
+				c, d := nestedOp(m)
+				calls = append(calls, c)
+				m += d
+			}
+			out.Line("rangedo %d %s", k, strings.Join(calls, " ; "))
+			if k < n {
+				n = m
+			}
+		}
+		// call: an ordinary call of the history (keeps n up to date); on a plain copy-on-write list every
+		// fourth one is made from inside a Range callback instead, sometimes followed by further calls.
+		call := func(format string, args ...any) {
+			line := fmt.Sprintf(format, args...)
+			if cowRe && r.Chance(25) {
+				reentrant(line)
+				return
+			}
+			out.Line("%s", line)
+			n += effect(line, n)
 		}
 		// phases: grow, churn, drain to empty, refill
 		phases := []string{"grow", "churn", "drain", "refill", "churn"}
@@ -215,14 +322,9 @@ func gen(tier string, out *vlib.Out) {
 						for i := range xs {
 							xs[i] = next()
 						}
-						out.Line("append %s", vlib.Ints(xs))
-						n += k
+						call("append %s", vlib.Ints(xs))
 					} else if pick < 90 {
-						i := idx(n)
-						out.Line("add %d %d", i, next())
-						if i >= 0 && i <= n {
-							n++
-						}
+						call("add %d %d", idx(n), next())
 					} else {
 						out.Line("len")
 					}
@@ -242,58 +344,28 @@ func gen(tier string, out *vlib.Out) {
 					if r.Chance(60) {
 						i = vlib.Pick(r, []int{0, n - 1})
 					}
-					out.Line("delete %d", i)
-					if i >= 0 && i < n {
-						n--
-					}
+					call("delete %d", i)
 				default: // churn
 					switch {
 					case pick < 15:
 						out.Line("get %d", idx(n-1))
 					case pick < 30:
-						out.Line("set %d %d", idx(n-1), next())
+						call("set %d %d", idx(n-1), next())
 					case pick < 50:
-						i := idx(n)
-						out.Line("add %d %d", i, next())
-						if i >= 0 && i <= n {
-							n++
-						}
+						call("add %d %d", idx(n), next())
 					case pick < 72:
-						i := idx(n - 1)
-						out.Line("delete %d", i)
-						if i >= 0 && i < n {
-							n--
-						}
+						call("delete %d", idx(n-1))
 					case pick < 82:
 						k := r.Range(0, 3)
 						xs := make([]int, k)
 						for i := range xs {
 							xs[i] = next()
 						}
-						out.Line("append %s", vlib.Ints(xs))
-						n += k
-					case pick < 85 && (base == "cow" || base == "cowof") && !strings.Contains(kind, "conc-") && r.Chance(50):
-						// one arbitrary re-entrant writer (or reader) call during Range
-						k := r.Range(0, n)
-						switch r.Intn(4) {
-						case 0:
-							out.Line("rangedo %d set %d %d", k, idx(n-1), next())
-						case 1:
-							i := idx(n)
-							out.Line("rangedo %d add %d %d", k, i, next())
-							if k < n && i >= 0 && i <= n {
-								n++
-							}
-						case 2:
-							i := idx(n - 1)
-							out.Line("rangedo %d delete %d", k, i)
-							if k < n && i >= 0 && i < n {
-								n--
-							}
-						default:
-							out.Line("rangedo %d get %d", k, idx(n-1))
-						}
-					case pick < 85 && (base == "cow" || base == "cowof") && !strings.Contains(kind, "conc-"):
+						call("append %s", vlib.Ints(xs))
+					case pick < 85 && cowRe && r.Chance(50):
+						// arbitrary re-entrant calls (writers and readers) during Range
+						reentrant("")
+					case pick < 85 && cowRe:
 						// re-entrant writers during Range: a copy-on-write list must show the snapshot
 						d := r.Range(0, 2)
 						if d > n {
@@ -322,6 +394,49 @@ func gen(tier string, out *vlib.Out) {
 				}
 			}
 		}
+	}
+}
+
+// growthSweep: copy-on-write lists of every small length (and around the larger powers of two), grown by
+// 1..3 elements through Append or Add - how much spare capacity that leaves is the runtime's business and
+// depends on length and element size - and then called from inside their own Range callback: the walk
+// in progress shows the sequence as it was when Range was called, the calls act on the list as usual.
+func growthSweep(out *vlib.Out) {
+	v := 1000
+	nv := func() int { v++; return v }
+	seq := func(k int) string {
+		xs := make([]int, k)
+		for i := range xs {
+			xs[i] = nv()
+		}
+		return vlib.Ints(xs)
+	}
+	for _, kind := range []string{"cowof", "box-cowof"} {
+		for _, l := range []int{0, 1, 2, 3, 4, 5, 6, 7, 8, 9, 15, 16, 17, 31, 33} {
+			for a := 1; a <= 3; a++ {
+				n := l + a
+				out.Line("new %s %s", kind, seq(l))
+				if a == 1 && l%2 == 1 {
+					out.Line("add %d %d", l/2, nv())
+				} else {
+					out.Line("append %s", seq(a))
+				}
+				out.Line("rangedo 0 add %d %d", n/2, nv())
+				out.Line("rangedo 0 delete 0 ; add 0 %d ; get 0", nv())
+				out.Line("rangedo %d set %d %d ; append %s", n/2, n, nv(), seq(1))
+				out.Line("rangedo 0 append %s ; add %d %d ; add 1 %d ; delete %d", seq(2), n+4, nv(), nv(), n+5)
+				out.Line("range")
+			}
+		}
+	}
+	for _, kind := range []string{"cow", "box-cow"} {
+		out.Line("new %s", kind)
+		for i := 0; i < 12; i++ {
+			out.Line("append %s", seq(1))
+			out.Line("rangedo 0 add %d %d", i, nv())
+			out.Line("rangedo %d delete 0 ; len", i)
+		}
+		out.Line("range")
 	}
 }
 
@@ -567,13 +682,18 @@ func run(ops []string, out *vlib.Out, st *stats) {
 				}
 				extra = fmt.Sprintf(" more=%d", more)
 			case "rangedo":
-				// Range whose callback, when shown index k, performs one ordinary call on the list
+				// Range whose callback, when shown index k, performs one or more ordinary calls on the
+				// list (`call ; call ; …`), writers and readers alike
 				k, _ := strconv.Atoi(w[1])
 				nested := "-"
 				var seenVals []int
 				err := l.Range(func(i int, t int) error {
 					if i == k {
-						nested = apply(l, w[2:])
+						var outs []string
+						for _, c := range strings.Split(strings.Join(w[2:], " "), " ; ") {
+							outs = append(outs, apply(l, strings.Fields(c)))
+						}
+						nested = strings.Join(outs, ";")
 					}
 					seenVals = append(seenVals, t)
 					return nil
@@ -636,7 +756,7 @@ func run(ops []string, out *vlib.Out, st *stats) {
 
 var errStop = errors.New("zzverif: stop")
 
-// apply performs one get/add/set/delete/append call (the nested call of rangedo)
+// apply performs one ordinary call (a nested call of rangedo)
 func apply(l list.List[int], w []string) string {
 	at := func(i int) int { v, _ := strconv.Atoi(w[i]); return v }
 	switch w[0] {
@@ -650,6 +770,16 @@ func apply(l list.List[int], w []string) string {
 		return vlib.Err(l.Set(at(1), at(2)))
 	case "delete":
 		return okv(l.Delete(at(1)))
+	case "len":
+		return "ok:" + strconv.Itoa(l.Len())
+	case "asslice":
+		return "ok:" + render(l.AsSlice())
+	case "range":
+		var vs []int
+		if err := l.Range(func(_ int, t int) error { vs = append(vs, t); return nil }); err != nil {
+			return "err:range"
+		}
+		return "ok:" + render(vs)
 	}
 	panic("nested op " + w[0])
 }
